@@ -575,6 +575,462 @@ theorem surrogate_getters_present :
             "getGrowthAndInterfacialComposition", "impingementFactor"], g ∈ multiGetters) := by
   decide
 
+section forwarding
+open KawinV.Forward
+
+/-! ### untrained surrogates: every argument of the caller reaches the thermodynamics method -/
+
+/-- what a row of the generated forwarding table has to satisfy: the thermodynamics method of the same name; every
+named parameter handed on (by position or under its own name), every further keyword handed on; and the model of the
+forwarding line, run on the canonical calls (all keywords, each keyword alone, all positional, named positional +
+keywords), delivers every argument under its own name -/
+def rowOk (r : Row) : Bool :=
+  let g := Getter.ofRow r
+  let d : String → String := fun _ => "?"
+  r.1 == g.target &&
+  g.named.all (fun e => e.2 == How.pos || e.2 == How.kw) &&
+  g.extras.all (fun e => e.2 == How.kw) &&
+  faithfulOn g d (kwCall g) && faithfulOn g d (posCall g) && faithfulOn g d (mixedCall g) &&
+  g.order.all (fun n => faithfulOn g d { pos := [], kw := [(n, n)] })
+
+theorem untrained_forwards_all_arguments :
+    (∀ r ∈ binaryForwarding, rowOk r = true) ∧ (∀ r ∈ multiForwarding, rowOk r = true) ∧
+    (∀ g ∈ binaryGetters, g ∈ binaryForwarding.map (·.1)) ∧ (∀ g ∈ multiGetters, g ∈ multiForwarding.map (·.1)) := by
+  decide
+
+/-! #### the broken variants, on concrete calls -/
+
+/-- `getGrowthAndInterfacialComposition` with the precipitate phase left out of the forwarding line -/
+def growthDropped : Getter :=
+  { target := "getGrowthAndInterfacialComposition", star := true,
+    named := [("x", .pos), ("T", .pos), ("dG", .pos), ("R", .pos), ("gExtra", .pos), ("precPhase", .drop)],
+    extras := [("removeCache", .kw), ("searchDir", .kw)],
+    tsig := ["x", "T", "dG", "R", "gExtra", "precPhase", "removeCache", "searchDir"] }
+
+/-- … a query for the THIRD phase reaches the thermodynamics without a phase: the method falls back to its default,
+the first precipitate phase, and the surrogate answers with the growth rate of another phase -/
+theorem dropped_phase_not_received :
+    received growthDropped (fun _ => 0) { pos := [1, 2, 3, 4, 5], kw := [("precPhase", 3), ("removeCache", 1)] }
+      = .ok [("x", 1), ("T", 2), ("dG", 3), ("R", 4), ("gExtra", 5), ("removeCache", 1)] ∧
+    faithfulOn growthDropped (fun _ => 0) { pos := [1, 2, 3, 4, 5], kw := [("precPhase", 3), ("removeCache", 1)] } = false := by
+  decide
+
+/-- the same row does not pass the table obligation -/
+theorem dropped_phase_row_rejected :
+    rowOk ("getGrowthAndInterfacialComposition", "getGrowthAndInterfacialComposition", true,
+      [("x", "pos"), ("T", "pos"), ("dG", "pos"), ("R", "pos"), ("gExtra", "pos"), ("precPhase", "drop")],
+      [("removeCache", "kw"), ("searchDir", "kw")],
+      ["x", "T", "dG", "R", "gExtra", "precPhase", "removeCache", "searchDir"]) = false := by
+  decide
+
+/-- `getDrivingForce` as it was before e476a9c: the phase by keyword, then `*args` -/
+def drivingForceUnrepaired : Getter :=
+  { target := "getDrivingForce", star := true,
+    named := [("x", .pos), ("T", .pos), ("precPhase", .kw)],
+    extras := [("removeCache", .kw), ("local_phase_sampling_conditions", .kw)],
+    tsig := ["x", "T", "precPhase", "removeCache", "local_phase_sampling_conditions"] }
+
+/-- … `getDrivingForce(x, T, phase, True)`: the flag lands in the slot of the phase, Python raises
+"got multiple values for argument 'precPhase'" -/
+theorem unrepaired_positional_collides :
+    received drivingForceUnrepaired (fun _ => 0) { pos := [1, 2, 3, 4], kw := [] } = .error (.multiple "precPhase") := by
+  decide
+
+/-- … while keyword calls were already handed on correctly -/
+example : faithfulOn drivingForceUnrepaired (fun _ => 0) { pos := [1, 2], kw := [("removeCache", 4), ("precPhase", 3)] } = true := by
+  decide
+
+/-! #### for every call -/
+section forward_calls
+variable {β : Type}
+
+theorem lookup_append_of_not_mem (a b : List (String × β)) (k : String) (h : k ∉ a.map (·.1)) :
+    lookup (a ++ b) k = lookup b k := by
+  induction a with
+  | nil => rfl
+  | cons x r ih =>
+    obtain ⟨k', v⟩ := x
+    simp only [List.map_cons, List.mem_cons, not_or] at h
+    have h1 : ¬ k' = k := fun e => h.1 e.symm
+    simp only [List.cons_append, lookup, if_neg h1]
+    exact ih h.2
+
+theorem lookup_append_of_some (a b : List (String × β)) (k : String) (v : β) (h : lookup a k = some v) :
+    lookup (a ++ b) k = some v := by
+  induction a with
+  | nil => simp [lookup] at h
+  | cons x r ih =>
+    obtain ⟨k', w⟩ := x
+    simp only [List.cons_append, lookup] at h ⊢
+    split
+    · next hk => simpa [hk] using h
+    · next hk => simp only [hk, if_false] at h; exact ih h
+
+theorem lookup_some_mem (l : List (String × β)) (k : String) (v : β) (h : lookup l k = some v) : (k, v) ∈ l := by
+  induction l with
+  | nil => simp [lookup] at h
+  | cons x r ih =>
+    obtain ⟨k', w⟩ := x
+    simp only [lookup] at h
+    split at h
+    · next hk => cases h; subst hk; simp
+    · exact List.mem_cons_of_mem _ (ih h)
+
+theorem lookup_of_mem_nodup (l : List (String × β)) (k : String) (v : β) (hn : (l.map (·.1)).Nodup)
+    (h : (k, v) ∈ l) : lookup l k = some v := by
+  induction l with
+  | nil => simp at h
+  | cons x r ih =>
+    obtain ⟨k', w⟩ := x
+    simp only [List.map_cons, List.nodup_cons] at hn
+    simp only [List.mem_cons, Prod.mk.injEq] at h
+    simp only [lookup]
+    rcases h with ⟨rfl, rfl⟩ | h
+    · simp
+    · have : k' ≠ k := by
+        rintro rfl
+        exact hn.1 (List.mem_map.mpr ⟨(k', v), h, rfl⟩)
+      simp only [this, if_false]
+      exact ih hn.2 h
+
+theorem lookup_filter (l : List (String × β)) (q : String → Bool) (k : String) (hq : q k = true) :
+    lookup (l.filter (fun e => q e.1)) k = lookup l k := by
+  induction l with
+  | nil => rfl
+  | cons x r ih =>
+    obtain ⟨k', w⟩ := x
+    by_cases hk : k' = k
+    · subst hk; simp [List.filter, hq, lookup]
+    · cases hqk : q k' with
+      | true => simp [List.filter, hqk, lookup, hk, ih]
+      | false => simp [List.filter, hqk, lookup, hk, ih]
+
+/-- splitting the parameter list splits the positional arguments -/
+theorem namedVals_append (d : String → β) (kw : List (String × β)) (A B : List (String × How)) (vs : List β) :
+    namedVals d kw (A ++ B) vs = namedVals d kw A vs ++ namedVals d kw B (vs.drop A.length) := by
+  induction A generalizing vs with
+  | nil => simp [namedVals]
+  | cons a A ih =>
+    obtain ⟨n, h⟩ := a
+    cases vs with
+    | nil => simpa [namedVals] using ih []
+    | cons v vs => simpa [namedVals] using ih vs
+
+theorem namedVals_hows (d : String → β) (kw : List (String × β)) (L : List (String × How)) (vs : List β) :
+    (namedVals d kw L vs).map (fun e => (e.1, e.2.1)) = L := by
+  induction L generalizing vs with
+  | nil => simp [namedVals]
+  | cons a L ih =>
+    obtain ⟨n, h⟩ := a
+    cases vs with
+    | nil => simp [namedVals, ih]
+    | cons v vs => simp [namedVals, ih]
+
+theorem namedVals_keys (d : String → β) (kw : List (String × β)) (L : List (String × How)) (vs : List β) :
+    ((namedVals d kw L vs).map (fun e => (e.1, e.2.2))).map (·.1) = L.map (·.1) := by
+  have h := congrArg (List.map (·.1)) (namedVals_hows d kw L vs)
+  rw [List.map_map] at h ⊢
+  exact h
+
+theorem namedVals_how_mem (d : String → β) (kw : List (String × β)) (L : List (String × How)) (vs : List β)
+    (e : String × How × β) (he : e ∈ namedVals d kw L vs) : (e.1, e.2.1) ∈ L := by
+  have h := namedVals_hows d kw L vs
+  rw [← h]
+  exact List.mem_map.mpr ⟨e, he, rfl⟩
+
+/-- a parameter not given by position holds its keyword (or its default) -/
+theorem namedVals_lookup_kw (d : String → β) (kw : List (String × β)) (L : List (String × How)) (vs : List β) (k : String)
+    (hk : k ∈ L.map (·.1)) (hnot : k ∉ (L.map (·.1)).take vs.length) :
+    lookup ((namedVals d kw L vs).map (fun e => (e.1, e.2.2))) k = some ((lookup kw k).getD (d k)) := by
+  induction L generalizing vs with
+  | nil => simp at hk
+  | cons a L ih =>
+    obtain ⟨n, h⟩ := a
+    cases vs with
+    | nil =>
+      simp only [namedVals, List.map_cons, lookup]
+      split
+      · next hn => subst hn; rfl
+      · next hn =>
+        simp only [List.map_cons, List.mem_cons] at hk
+        rcases hk with rfl | hk
+        · exact absurd rfl hn
+        · exact ih [] hk (by simp)
+    | cons v vs =>
+      simp only [List.map_cons, List.length_cons, List.take_succ_cons, List.mem_cons, not_or] at hnot
+      simp only [List.map_cons, List.mem_cons] at hk
+      have hn : ¬ n = k := fun e => hnot.1 e.symm
+      simp only [namedVals, List.map_cons, lookup, if_neg hn]
+      rcases hk with rfl | hk
+      · exact absurd rfl hn
+      · exact ih vs hk hnot.2
+
+/-- a parameter given by position holds that argument -/
+theorem namedVals_lookup_pos (d : String → β) (kw : List (String × β)) (L : List (String × How)) (vs : List β)
+    (n : String) (v : β) (hnd : (L.map (·.1)).Nodup) (h : (n, v) ∈ (L.map (·.1)).zip vs) :
+    lookup ((namedVals d kw L vs).map (fun e => (e.1, e.2.2))) n = some v := by
+  induction L generalizing vs with
+  | nil => simp at h
+  | cons a L ih =>
+    obtain ⟨m, hw⟩ := a
+    cases vs with
+    | nil => simp at h
+    | cons w vs =>
+      simp only [List.map_cons, List.nodup_cons] at hnd
+      simp only [List.map_cons, List.zip_cons_cons, List.mem_cons, Prod.mk.injEq] at h
+      simp only [namedVals, List.map_cons, lookup]
+      rcases h with ⟨rfl, rfl⟩ | h
+      · simp
+      · have hm : m ≠ n := by
+          rintro rfl
+          exact hnd.1 (List.of_mem_zip h).1
+        simp only [hm, if_false]
+        exact ih vs hnd.2 h
+
+theorem bindPos_keys (l : List (String × How × β)) (rest : List String) :
+    bindPos (l.map (·.1) ++ rest) (l.map (fun e => e.2.2)) = some (l.map (fun e => (e.1, e.2.2))) := by
+  induction l with
+  | nil => cases rest <;> rfl
+  | cons a l ih =>
+    simp only [List.map_cons, List.cons_append, bindPos, ih, Option.map_some]
+
+theorem checkS_none_multiple (g : Getter) (c : Call β) (h : checkS g c = none) :
+    ∀ e ∈ c.kw, e.1 ∉ g.names.take c.pos.length := by
+  unfold checkS at h
+  split at h
+  · cases h
+  · split at h
+    · cases h
+    · next hf =>
+      intro e he hmem
+      have := List.find?_eq_none.mp hf e he
+      simp only [List.contains_iff_mem, Bool.not_eq_true, decide_eq_false_iff_not] at this
+      exact this hmem
+
+/-- **every argument is handed on, for every call** (`_partial`: positional arguments for the getter's own parameters
+only — `hpos`; extra positional arguments travel through `*args` and are covered per getter by
+`untrained_forwards_all_arguments`; the unrepaired line fails exactly there, `unrepaired_positional_collides`).
+
+A getter whose forwarding line hands the parameters `Pn` on by position — they are the leading parameters of the
+thermodynamics method — and the parameters `Kn` under their own names, and drops no further keyword: whenever the
+thermodynamics method accepts the forwarded call, it has received every keyword of the caller and every positional
+argument of the caller under the name of the parameter it was given for, with the caller's value. -/
+theorem forward_faithful_partial (g : Getter) (Pn Kn rest : List String) (d : String → β) (c : Call β)
+    (r : List (String × β))
+    (hN : g.named = Pn.map (fun n => (n, How.pos)) ++ Kn.map (fun n => (n, How.kw)))
+    (hT : g.tsig = Pn ++ rest)
+    (hE : ∀ e ∈ g.extras, e.2 = How.kw)
+    (hnd : (Pn ++ Kn).Nodup)
+    (hpos : c.pos.length ≤ g.named.length)
+    (hkw : (c.kw.map (·.1)).Nodup)
+    (hr : received g d c = .ok r) :
+    (∀ k v, (k, v) ∈ c.kw → lookup r k = some v) ∧
+    (∀ n v, (n, v) ∈ Pn.zip c.pos → lookup r n = some v) ∧
+    (∀ n v, (n, v) ∈ Kn.zip (c.pos.drop Pn.length) → lookup r n = some v) := by
+  -- the two halves of the parameter list
+  set LP : List (String × How) := Pn.map (fun n => (n, How.pos)) with hLP
+  set LK : List (String × How) := Kn.map (fun n => (n, How.kw)) with hLK
+  have hLPk : LP.map (·.1) = Pn := by rw [hLP, List.map_map]; exact List.map_id' Pn
+  have hLKk : LK.map (·.1) = Kn := by rw [hLK, List.map_map]; exact List.map_id' Kn
+  have hLPlen : LP.length = Pn.length := by simp [hLP]
+  have hnames : g.names = Pn ++ Kn := by simp [Getter.names, hN, hLPk, hLKk]
+  have hndP : Pn.Nodup := (List.nodup_append.mp hnd).1
+  have hndK : Kn.Nodup := (List.nodup_append.mp hnd).2.1
+  have hdisj : ∀ k, k ∈ Pn → k ∉ Kn := fun k hp hk => (List.nodup_append.mp hnd).2.2 k hp k hk rfl
+  -- invert `received`
+  unfold received at hr
+  split at hr
+  · cases hr
+  next f hf =>
+  unfold forward at hf
+  split at hf
+  · cases hf
+  next hc =>
+  have hmult := checkS_none_multiple g c hc
+  simp only [Except.ok.injEq] at hf
+  -- the values of the named parameters
+  have hnv : namedVals d c.kw g.named c.pos
+      = namedVals d c.kw LP c.pos ++ namedVals d c.kw LK (c.pos.drop Pn.length) := by
+    rw [hN, namedVals_append, hLPlen]
+  set nvP := namedVals d c.kw LP c.pos with hnvP
+  set nvK := namedVals d c.kw LK (c.pos.drop Pn.length) with hnvK
+  have hPpos : ∀ e ∈ nvP, e.2.1 = How.pos := by
+    intro e he
+    have := namedVals_how_mem d c.kw LP c.pos e he
+    simp only [hLP, List.mem_map, Prod.mk.injEq] at this
+    obtain ⟨_, _, _, h2⟩ := this
+    exact h2.symm
+  have hKkw : ∀ e ∈ nvK, e.2.1 = How.kw := by
+    intro e he
+    have := namedVals_how_mem d c.kw LK _ e he
+    simp only [hLK, List.mem_map, Prod.mk.injEq] at this
+    obtain ⟨_, _, _, h2⟩ := this
+    exact h2.symm
+  have hfP : (nvP ++ nvK).filter (fun e => e.2.1 == How.pos) = nvP := by
+    rw [List.filter_append, List.filter_eq_self.mpr (fun e he => by simp [hPpos e he]),
+      List.filter_eq_nil_iff.mpr (fun e he => by simp [hKkw e he]), List.append_nil]
+  have hfK : (nvP ++ nvK).filter (fun e => e.2.1 == How.kw) = nvK := by
+    rw [List.filter_append, List.filter_eq_nil_iff.mpr (fun e he => by simp [hPpos e he]),
+      List.filter_eq_self.mpr (fun e he => by simp [hKkw e he]), List.nil_append]
+  have hargs : c.pos.drop g.named.length = [] := List.drop_eq_nil_of_le hpos
+  rw [hnv, hfP, hfK, hargs, List.append_nil] at hf
+  subst hf
+  -- invert `bindT`
+  unfold bindT at hr
+  simp only at hr
+  have hbp : bindPos g.tsig (nvP.map (fun e => e.2.2)) = some (nvP.map (fun e => (e.1, e.2.2))) := by
+    have hk : nvP.map (·.1) = Pn := by
+      have := namedVals_keys d c.kw LP c.pos
+      rw [List.map_map] at this
+      rw [← hLPk, ← this]; rfl
+    rw [hT, ← hk]
+    exact bindPos_keys nvP rest
+  rw [hbp] at hr
+  simp only at hr
+  split at hr
+  · cases hr
+  split at hr
+  · cases hr
+  simp only [Except.ok.injEq] at hr
+  subst hr
+  -- keys of the two blocks
+  set A1 := nvP.map (fun e => (e.1, e.2.2)) with hA1
+  set A2 := nvK.map (fun e => (e.1, e.2.2)) with hA2
+  have hA1k : A1.map (·.1) = Pn := by rw [hA1, hnvP, namedVals_keys, hLPk]
+  have hA2k : A2.map (·.1) = Kn := by rw [hA2, hnvK, namedVals_keys, hLKk]
+  refine ⟨?_, ?_, ?_⟩
+  · intro k v hkv
+    have hlk : lookup c.kw k = some v := lookup_of_mem_nodup c.kw k v hkw hkv
+    have hnotpos : k ∉ (Pn ++ Kn).take c.pos.length := by
+      have := hmult (k, v) hkv
+      rwa [hnames] at this
+    rw [List.take_append] at hnotpos
+    simp only [List.mem_append, not_or] at hnotpos
+    by_cases hP : k ∈ Pn
+    · apply lookup_append_of_some
+      have := namedVals_lookup_kw d c.kw LP c.pos k (by rw [hLPk]; exact hP) (by rw [hLPk]; exact hnotpos.1)
+      rw [hlk] at this
+      simpa using this
+    · rw [lookup_append_of_not_mem _ _ _ (by rw [hA1k]; exact hP)]
+      by_cases hK : k ∈ Kn
+      · apply lookup_append_of_some
+        have := namedVals_lookup_kw d c.kw LK (c.pos.drop Pn.length) k (by rw [hLKk]; exact hK)
+          (by rw [hLKk, List.length_drop]; exact hnotpos.2)
+        rw [hlk] at this
+        simpa using this
+      · rw [lookup_append_of_not_mem _ _ _ (by rw [hA2k]; exact hK)]
+        rw [lookup_filter c.kw (fun k => !g.names.contains k && howOf g.extras k == How.kw) k ?_]
+        · exact hlk
+        · have h1 : g.names.contains k = false := by
+            rw [hnames]; simp [hP, hK]
+          have h2 : howOf g.extras k = How.kw := by
+            unfold howOf
+            cases hl : lookup g.extras k with
+            | none => rfl
+            | some h => exact hE _ (lookup_some_mem _ _ _ hl)
+          show (!g.names.contains k && howOf g.extras k == How.kw) = true
+          rw [h1, h2]; rfl
+  · intro n v hnv'
+    apply lookup_append_of_some
+    exact namedVals_lookup_pos d c.kw LP c.pos n v (by rw [hLPk]; exact hndP) (by rw [hLPk]; exact hnv')
+  · intro n v hnv'
+    have hnK : n ∈ Kn := (List.of_mem_zip hnv').1
+    have hnP : n ∉ Pn := fun hp => hdisj n hp hnK
+    rw [lookup_append_of_not_mem _ _ _ (by rw [hA1k]; exact hnP)]
+    apply lookup_append_of_some
+    exact namedVals_lookup_pos d c.kw LK _ n v (by rw [hLKk]; exact hndK) (by rw [hLKk]; exact hnv')
+
+/-! #### … applied to every getter of the generated table -/
+
+def posNames (g : Getter) : List String := (g.named.takeWhile (fun e => e.2 == How.pos)).map (·.1)
+def kwNames (g : Getter) : List String := (g.named.dropWhile (fun e => e.2 == How.pos)).map (·.1)
+
+/-- the shape `forward_faithful_partial` asks for, as a check that can be run on a row -/
+def shapeOk (g : Getter) : Bool :=
+  (g.named.dropWhile (fun e => e.2 == How.pos)).all (fun e => e.2 == How.kw) &&
+  g.extras.all (fun e => e.2 == How.kw) &&
+  decide g.names.Nodup &&
+  (g.tsig.take (posNames g).length == posNames g)
+
+theorem map_pair_const (L : List (String × How)) (h : How) (hL : ∀ e ∈ L, e.2 = h) :
+    L = (L.map (·.1)).map (fun n => (n, h)) := by
+  induction L with
+  | nil => rfl
+  | cons a L ih =>
+    obtain ⟨n, w⟩ := a
+    have hw : w = h := hL (n, w) (by simp)
+    subst hw
+    simp only [List.map_cons, List.cons.injEq, true_and]
+    exact ih (fun e he => hL e (List.mem_cons_of_mem _ he))
+
+theorem mem_takeWhile_sat {γ : Type} (p : γ → Bool) (l : List γ) (e : γ) (he : e ∈ l.takeWhile p) : p e = true := by
+  induction l with
+  | nil => simp at he
+  | cons a l ih =>
+    simp only [List.takeWhile] at he
+    split at he
+    · next hp =>
+      simp only [List.mem_cons] at he
+      rcases he with rfl | he
+      · exact hp
+      · exact ih he
+    · simp at he
+
+theorem shapeOk_decomp (g : Getter) (h : shapeOk g = true) :
+    g.named = (posNames g).map (fun n => (n, How.pos)) ++ (kwNames g).map (fun n => (n, How.kw)) ∧
+    g.tsig = posNames g ++ g.tsig.drop (posNames g).length ∧
+    (∀ e ∈ g.extras, e.2 = How.kw) ∧ (posNames g ++ kwNames g).Nodup := by
+  unfold shapeOk at h
+  simp only [Bool.and_eq_true, List.all_eq_true, beq_iff_eq, decide_eq_true_eq] at h
+  obtain ⟨⟨⟨h1, h2⟩, h3⟩, h4⟩ := h
+  have hP : ∀ e ∈ g.named.takeWhile (fun e => e.2 == How.pos), e.2 = How.pos := by
+    intro e he
+    simpa using mem_takeWhile_sat _ _ e he
+  refine ⟨?_, ?_, h2, ?_⟩
+  · conv => lhs; rw [← List.takeWhile_append_dropWhile (p := fun e => e.2 == How.pos) (l := g.named)]
+    unfold posNames kwNames
+    rw [← map_pair_const _ _ hP, ← map_pair_const _ _ h1]
+  · conv => lhs; rw [← List.take_append_drop (posNames g).length g.tsig]
+    rw [h4]
+  · unfold posNames kwNames
+    rw [← List.map_append, List.takeWhile_append_dropWhile]
+    exact h3
+
+/-- every getter of both surrogate classes, as the running code forwards today, has that shape -/
+theorem table_getters_shape :
+    (∀ r ∈ binaryForwarding, shapeOk (Getter.ofRow r) = true) ∧ (∀ r ∈ multiForwarding, shapeOk (Getter.ofRow r) = true) := by
+  decide
+
+/-- **untrained pass-through with all arguments**: for every getter of `BinarySurrogate` / `MulticomponentSurrogate`
+(generated rows), every call with distinct keywords and positional arguments for the getter's own parameters: if the
+thermodynamics method accepts the forwarded call, it has received every keyword argument of the caller — phase,
+`removeCache`, `searchDir`, … — with the caller's value. -/
+theorem untrained_getters_hand_on_every_keyword (r : Row) (hr : r ∈ binaryForwarding ∨ r ∈ multiForwarding)
+    (d : String → β) (c : Call β) (res : List (String × β))
+    (hpos : c.pos.length ≤ (Getter.ofRow r).named.length) (hkw : (c.kw.map (·.1)).Nodup)
+    (hres : received (Getter.ofRow r) d c = .ok res) :
+    ∀ k v, (k, v) ∈ c.kw → lookup res k = some v := by
+  have hs : shapeOk (Getter.ofRow r) = true := by
+    rcases hr with hr | hr
+    · exact table_getters_shape.1 r hr
+    · exact table_getters_shape.2 r hr
+  obtain ⟨h1, h2, h3, h4⟩ := shapeOk_decomp _ hs
+  exact (forward_faithful_partial (Getter.ofRow r) _ _ _ d c res h1 h2 h3 h4 hpos hkw hres).1
+
+/-- non-vacuity: a call of the generated `getGrowthAndInterfacialComposition` row that meets the hypotheses of
+`untrained_getters_hand_on_every_keyword` and is accepted; the phase arrives -/
+example : ∀ r ∈ multiForwarding, r.1 = "getGrowthAndInterfacialComposition" →
+    (match received (Getter.ofRow r) (fun _ => 0) { pos := [1, 2, 3, 4, 5], kw := [("precPhase", 7), ("removeCache", 1)] } with
+      | .ok res => lookup res "precPhase" == some 7 && lookup res "removeCache" == some 1
+      | .error _ => false) = true := by
+  decide
+
+example : "getGrowthAndInterfacialComposition" ∈ multiForwarding.map (·.1) := by decide
+
+end forward_calls
+
+end forwarding
+
 /-! ### JSON layer -/
 
 theorem chunks_length (m n : Nat) (d : List α) : (chunks m n d).length = n := by
